@@ -1,30 +1,30 @@
 (* C09 -- remove without -files never destroys user data.  Statements only.
-   wf_remove (Proofs/C09P.v) = unique paths && (for the layer named) links_apart &&
-   removed_closed && dirs_agree; see Proofs/WitnessP.v for a world satisfying it and for the
-   configuration on which the unrestricted statement fails (C09_refuted_deep_workdir). *)
+   wf_remove (Proofs/C09P.v) = the layers directory is absolute && unique paths && (for the
+   layer named) links_apart && removed_closed; see Proofs/WitnessP.v for worlds satisfying it
+   (wf_remove_sat, C09_deep_workdir_hyp). *)
 From LC Require Import Lib.Bytes Model.FsTree Model.Kernel Model.Layers
   Cases.LC Cases.C09 Proofs.C09P Proofs.C09cP Proofs.WitnessP.
 Import LC LCS.
 
-(* Full statement (false for configurations whose buildroot / workdir / upperdir nest deeper
-   than the defaults, C09_refuted_deep_workdir):
-     forall cfg w e um n, plain_env e = true ->
-       C09.step_spec cfg w (view_of_model cfg w e (CRemove n false) um) = true *)
-Theorem C09_model_partial : forall cfg w e um n,
+(* the property predicate holds on the model's step of `remove n` (without -files), whatever
+   the world, the layer population, the users and the order oracle *)
+Theorem C09_model : forall cfg w e um n,
   plain_env e = true -> wf_remove cfg (wo_fs w) n = true ->
   C09.step_spec cfg w (view_of_model cfg w e (CRemove n false) um) = true.
 Proof. exact C09_model_proof. Qed.
-Print Assumptions C09_model_partial.
+Print Assumptions C09_model.
 
 (* the same with the disjointness of export links and layer directory as a condition on the
    configuration alone (cfg_apart: no link is nested with <layers>/<n> or <layers>/<n>~removed) *)
-Theorem C09_model_cfg_partial : forall cfg w e um n,
+Theorem C09_model_cfg : forall cfg w e um n,
   plain_env e = true -> wf_remove_cfg cfg (wo_fs w) n = true ->
   C09.step_spec cfg w (view_of_model cfg w e (CRemove n false) um) = true.
 Proof. exact C09_model_cfg_proof. Qed.
-Print Assumptions C09_model_cfg_partial.
+Print Assumptions C09_model_cfg.
 
-Theorem C09_refuted_1 :
-  C09.step_spec cfg1 w1 (view_of_model cfg1 w1 (env0 NoFault) (CRemove (bs "dev1") false) []) = false.
-Proof. exact C09_refuted_deep_workdir. Qed.
-Print Assumptions C09_refuted_1.
+(* the world on which the first version of the predicate failed (work directory three levels
+   deep) now satisfies it *)
+Theorem C09_deep_workdir :
+  C09.step_spec cfg1 w1 (view_of_model cfg1 w1 (env0 NoFault) (CRemove (bs "dev1") false) []) = true.
+Proof. exact (proj2 (proj2 C09_deep_workdir_holds)). Qed.
+Print Assumptions C09_deep_workdir.
